@@ -18,7 +18,7 @@ ASSUMPTIONS = ['domain: |k_i| < 1 (alphabet moduli <= 0.98), kappa = prod 1/(1-|
 def bounds(tier):
     q = tier == 'quick'
     return {'rc_exhaustive_order': '1..4 real, 1..3 complex' if q else '1..6 real, 1..5 complex',
-            'rc_families_order': '7..10' if q else '7..16', 'r0': [1.0, 2.5], 'lar_is_grid': '-0.98..0.98 step 0.01',
+            'rc_families_order': '7..10' if q else '7..16', 'r0': [1e-9, 1.0, 2.5, 1e6], 'lar_is_grid': '-0.98..0.98 step 0.01',
             'lsf': 'real vectors above, order <= %d exhaustive + families' % (4 if q else 6)}
 
 
@@ -49,7 +49,7 @@ def run_shard(desc, R, tier):
         alpha = lp.RC_CPLX if cplx else lp.RC_REAL
         for t in itertools.product(alpha, repeat=p - len(prefix)):
             k = np.array([alpha[i] for i in prefix] + list(t), dtype=complex if cplx else float)
-            for r0 in (1.0, 2.5):
+            for r0 in (1e-9, 1.0, 2.5, 1e6):
                 eval_point({'kind': 'lp', 'k': k, 'r0': r0}, R)
             if not cplx:
                 eval_point({'kind': 'lar_is', 'k': k}, R)
@@ -58,7 +58,7 @@ def run_shard(desc, R, tier):
         p = desc[1]
         for cplx in (False, True):
             for name, k in lp.rc_families(p, cplx):
-                eval_point({'kind': 'lp', 'k': k, 'r0': 1.0, 'family': name}, R)
+                eval_point({'kind': 'lp', 'k': k, 'r0': [1e-9, 1.0, 1e6][p % 3], 'family': name}, R)
                 if not cplx:
                     eval_point({'kind': 'lar_is', 'k': k}, R)
                     eval_point({'kind': 'lsf', 'k': k, 'family': name}, R)
